@@ -4,6 +4,7 @@ C35.Model / C34.Model."""
 import json
 import re
 
+import vlib
 from vlib import zlit, blit
 
 CAP = 1024 * 1024
@@ -386,7 +387,8 @@ EXECUTORS = [r"\.sql\s*\(", r"execute_any_distributed", r"execute_distributed", 
              r"\.execute\s*\(", r"create_physical_plan", r"plan_distributed", r"plan_gather", r"query_runtime\s*\("]
 
 
-def source_audit(repo="/repo"):
+def source_audit(repo=None):
+    repo = repo or vlib.REPO
     """Returns (ok, findings).  Audited from source every run:
        * flight.rs do_get calls execute_statement(&self.state, &ticket.sql, mode) exactly once and nothing else that
          executes SQL; no other function of flight.rs executes SQL (planning for the schema via physical_plan is allowed
